@@ -865,6 +865,15 @@ Section Inv.
   Qed.
 
 
+  Lemma rr_round_reach s0 order s : Reach s0 s -> Reach s0 (rr_round data_len enc_empty collect order s).
+  Proof.
+    revert s. unfold rr_round. induction order as [|e o IH]; intros s R; cbn; auto.
+    apply IH. destruct (step s e) eqn:E; auto. econstructor; eauto.
+  Qed.
+
+  Lemma rr_reach s0 fuel order s : Reach s0 s -> Reach s0 (rr data_len enc_empty collect fuel order s).
+  Proof. revert s. induction fuel; intros s R; cbn; auto. apply IHfuel. apply rr_round_reach; auto. Qed.
+
   (* ---- the statements used by Properties_C11 ---- *)
   Set Implicit Arguments.
   Definition reachable (n : nat) (u : bool) (l : N) (inp : list Data) (s : state) : Prop :=
@@ -917,3 +926,20 @@ Section Inv.
   Qed.
 
 End Inv.
+
+Arguments i_bad {Data Enc s} _.
+Arguments i_len {Data Enc s} _.
+Arguments i_hold {Data Enc s} _.
+Arguments i_lock {Data Enc s} _.
+Arguments i_nt {Data Enc s} _.
+Arguments i_units {Data Enc s} _.
+Arguments i_in {Data Enc s} _.
+Arguments i_out {Data Enc s} _.
+Arguments i_ready {Data Enc s} _.
+Arguments i_tok {Data Enc s} _.
+Arguments i_unf {Data Enc s} _.
+Arguments i_wake {Data Enc s} _.
+Arguments j_eof {Data Enc s} _.
+Arguments j_exit {Data Enc s} _.
+Arguments j_wr {Data Enc s} _.
+Arguments j_finish {Data Enc s} _.
